@@ -46,6 +46,45 @@ let rec handle (pl : string) : string =
   | ["snd"; u; hu; old; seq; name; dirty; fr] -> handle (String.concat " " ["sn"; u; hu; old; seq; name; fr]) ^ ":dirty"
   | ["an2"; ipc; order; net; sub; uni; port; huni; old; pre; fr] ->
     handle (String.concat " " ["an"; net; sub; uni; port; huni; old; pre; fr]) ^ ":rx-inputs" ^ ipc ^ (if ios order / 6 mod 2 = 1 then ":started-first" else ":configured-first")
+  | ["e1s"; u; prio; n; fa; m; fb] ->
+    let cid = List.map n_of_int [1;2;3;4;5;6;7;8;9;10;11;12;13;14;15;16] in
+    let name = List.map (fun c -> n_of_int (Char.code c)) ['s';'t';'r';'e';'a';'m'] in
+    let universe = nn u and priority = nn prio in
+    let nth_frame base i = match base with
+      | x :: r -> n_of_int ((int_of_n x + i) land 255) :: r | [] -> [] in
+    let short b = let s = buf_s b in if String.length s > 8 then String.sub s 0 8 else s in
+    let st = ref { rx_src = None; rx_active = N0; rx_buf = None } in
+    let tx = ref None in
+    let trace = Buffer.create 256 in
+    let all = ref true and delivered = ref 0 and bad = ref "" in
+    let deliver p =
+      (match e131_rx p universe true !st with
+       | SOk (st', ran) -> st := st'; ran
+       | SOob -> bad := "OOB"; false
+       | SUnmodelled -> bad := "UNMODELLED"; false) in
+    let run_phase base cnt =
+      for i = 0 to cnt - 1 do
+        let f = nth_frame base i in
+        let (p, t') = tx_send cid name priority universe !tx f in
+        tx := t';
+        (match p with
+         | None -> bad := "notsent"
+         | Some p ->
+           let ran = deliver p in
+           let ok = ran && (!st).rx_buf = Some f in
+           if ok then incr delivered else all := false;
+           Buffer.add_string trace ((if ran then "1:" else "0:") ^ short (!st).rx_buf ^ ","))
+      done in
+    run_phase (bytes_of_hex fa) (ios n);
+    let (pk, t') = tx_terminate cid name priority universe !tx in
+    tx := t';
+    Buffer.add_string trace ("T" ^ string_of_int (List.length pk) ^ ":");
+    List.iter (fun p -> Buffer.add_string trace (if deliver p then "1" else "0")) pk;
+    Buffer.add_string trace (":" ^ short (!st).rx_buf ^ ",");
+    run_phase (bytes_of_hex fb) (ios m);
+    if !bad <> "" then "t=" ^ !bad ^ ";class=e1s:" ^ !bad
+    else Printf.sprintf "t=%s;delivered=%d;spec=%s;class=e1s:n%s:m%s" (Buffer.contents trace) !delivered
+           (bool01 !all) (if ios n > 21 then ">21" else n) (if ios m > 21 then ">21" else m)
   | ["enc"; cap; fr] ->
     let f = bytes_of_hex fr in
     let cls = frame_class (List.map int_of_n f) in
